@@ -6,7 +6,7 @@
 use crate::CgtError;
 use rust_decimal::Decimal;
 use serde::Deserialize;
-use std::collections::HashMap;
+use std::collections::{BTreeMap, HashMap};
 use std::path::PathBuf;
 
 /// Embedded default configuration.
@@ -15,8 +15,10 @@ static EMBEDDED_CONFIG: &str = include_str!("../data/config.toml");
 /// Raw configuration as parsed from TOML (uses string keys).
 #[derive(Debug, Clone, Deserialize)]
 struct RawConfig {
+    // Ordered map: two spellings of one year ("2024", "02024") collapse onto one
+    // `u16` key below, and which of them wins must not depend on the hash seed.
     #[serde(default)]
-    exemptions: HashMap<String, Decimal>,
+    exemptions: BTreeMap<String, Decimal>,
 }
 
 /// CGT tool configuration.
